@@ -18,6 +18,7 @@ F_REGROUP = 'F24'
 F_INDEX = 'F18'
 F_INITIAL = 'F21'
 F_REBUILD = 'F1'
+F_RETYPE = 'F60'
 
 
 # ---------------------------------------------------------------------------
@@ -101,6 +102,19 @@ def initial_rollup(seq):
     return False
 
 
+def retype_merge(seq):
+    """a ChangeField that changes the field's type, preceded in the batch by another AddField/ChangeField of the
+    same field (one at a time the type change replaces the attributes, merged it adds to them: finding F60)"""
+    seen = set()
+    for m in seq:
+        if m['t'] in ('AddField', 'ChangeField'):
+            key = (m['model'], m['field'])
+            if m['t'] == 'ChangeField' and m.get('ftype') and key in seen:
+                return True
+            seen.add(key)
+    return False
+
+
 def table_level_meta(seq):
     return any(m['t'] == 'ChangeMeta' for m in seq)
 
@@ -120,7 +134,7 @@ def only_multicolumn_index_diffs(a, b):
 # ---------------------------------------------------------------------------
 
 def sig_equal(a, b):
-    return sigs.norm_sig(sigs.abs_sig(a), True) == sigs.norm_sig(sigs.abs_sig(b), True)
+    return sigs.norm_sig(sigs.abs_sig(a), True, True) == sigs.norm_sig(sigs.abs_sig(b), True, True)
 
 
 def check_sequence(ctx, sig, existing, seq, model_out, witnesses):
@@ -146,8 +160,15 @@ def check_sequence(ctx, sig, existing, seq, model_out, witnesses):
         ctx.corr_case('optimiser', bool(agree), case={'mutations': orig},
                       model={k: v for k, v in model_out.items()},
                       impl=[{k: v for k, v in r.items() if k != 'out_objs'} for r in real])
-    step = sigs.real_simulate(sig, 'vapp', [sigs.real_mutation(m) for m in seq])
+    step_objs = [sigs.real_mutation(m) for m in seq]
+    before_defs = [optrig.norm_mut(sigs.abs_mutation_obj(o)) for o in step_objs]
+    step = sigs.real_simulate(sig, 'vapp', step_objs)
     rep = {'kind': 'sig', 'mutations': seq}
+    after_defs = [optrig.norm_mut(sigs.abs_mutation_obj(o)) for o in step_objs]
+    if step[0] == 'ok' and after_defs != before_defs:
+        # the definitions are the caller's: simulating them one at a time must leave them as they were
+        ctx.fail(None, 'simulating the mutations altered the evolution definitions',
+                 dict(rep, observed={'before': before_defs, 'after': after_defs}))
     reuse = name_reuse(seq)
     regroup = touches_renamed_model(seq)
 
@@ -159,6 +180,9 @@ def check_sequence(ctx, sig, existing, seq, model_out, witnesses):
         elif agree and regroup:
             if witnesses.get(F_REGROUP) is None or len(seq) < len(witnesses[F_REGROUP]['mutations']):
                 witnesses[F_REGROUP] = r
+        elif agree and retype_merge(seq):
+            if witnesses.get(F_RETYPE) is None or len(seq) < len(witnesses[F_RETYPE]['mutations']):
+                witnesses[F_RETYPE] = r
         else:
             ctx.fail(None, what, r)
 
@@ -190,8 +214,11 @@ def check_sequence(ctx, sig, existing, seq, model_out, witnesses):
     elif len(real) > 1 and ('err' in real[1] or
                             [optrig.norm_mut(x) for x in real[1]['out']] != [optrig.norm_mut(x) for x in r1['out']]):
         ctx.fail(None, 'processing the same (unaltered) definitions again gives a different result', rep)
+    EXPLAINED[json.dumps([sigs.model_mutation(m) for m in seq], sort_keys=True)] = (agree is not False)
     return real, objs
 
+
+EXPLAINED = {}
 
 # ---------------------------------------------------------------------------
 # database level
@@ -249,7 +276,7 @@ def only_index_diffs(a, b):
     return True
 
 
-def db_case(ctx, spec, seq, seed, witnesses, rewritten):
+def db_case(ctx, spec, seq, seed, witnesses, rewritten, explained=True):
     A = db_run(spec, seq, 'stepwise', seed)
     if 'error' in A:
         ctx.count('db:stepwise_failed')        # C01's business
@@ -263,8 +290,10 @@ def db_case(ctx, spec, seq, seed, witnesses, rewritten):
         ctx.count('db:%s' % mode)
         if 'error' in B:
             r = dict(rep, mode=mode, observed=B['error'])
-            if name_reuse(seq) or touches_renamed_model(seq):
+            if explained and (name_reuse(seq) or touches_renamed_model(seq)):
                 witnesses.setdefault(F_REUSE + ':db', r)
+            elif explained and retype_merge(seq):
+                witnesses.setdefault(F_RETYPE + ':db', r)
             elif mode == 'evolver' and rewritten:
                 witnesses.setdefault(F_DEFS + ':db', r)
             elif index_interplay(seq):
@@ -276,8 +305,10 @@ def db_case(ctx, spec, seq, seed, witnesses, rewritten):
         sd = dbrig.schema_diff(A['schema'], B['schema'])
         if sd:
             r = dict(rep, mode=mode, observed=sd[:4])
-            if name_reuse(seq) or touches_renamed_model(seq):
+            if explained and (name_reuse(seq) or touches_renamed_model(seq)):
                 witnesses.setdefault(F_REUSE + ':db', r)
+            elif explained and retype_merge(seq):
+                witnesses.setdefault(F_RETYPE + ':db', r)
             elif only_multicolumn_index_diffs(A['schema'], B['schema']) and table_level_meta(seq):
                 # one of the two runs rebuilt the table after the ChangeMeta and lost the index (F1)
                 witnesses.setdefault(F_REBUILD, r)
@@ -287,9 +318,11 @@ def db_case(ctx, spec, seq, seed, witnesses, rewritten):
                 ctx.fail(None, 'the %s run ends in a different schema: %s' % (mode, sd[0][:160]), r)
         if A['rows'] != B['rows']:
             r = dict(rep, mode=mode, observed='row data differs')
-            if name_reuse(seq) or touches_renamed_model(seq):
+            if explained and (name_reuse(seq) or touches_renamed_model(seq)):
                 witnesses.setdefault(F_REUSE + ':db', r)
-            elif initial_rollup(seq):
+            elif explained and retype_merge(seq):
+                witnesses.setdefault(F_RETYPE + ':db', r)
+            elif explained and initial_rollup(seq):
                 witnesses.setdefault(F_INITIAL, r)
             else:
                 ctx.fail(None, 'the %s run ends with different row data' % mode, r)
@@ -310,6 +343,16 @@ def run(ctx):
     full = optrig.alphabet(small=False)
     for _ in range(1500 if quick else 30000):
         seqs.append(optrig.random_sequence(ctx.rng, sig, full, ctx.rng.randint(3, 12)))
+    # deterministic family: a change of type, then (across a barrier or not) another change of the same field
+    cf = lambda field, ftype, initial, *attrs: {'t': 'ChangeField', 'model': 'Alpha', 'field': field, 'ftype': ftype,
+                                                'initial': initial, 'attrs': [list(a) for a in attrs]}
+    barrier = {'t': 'SQLMutation', 'tag': 'barrier', 'can_simulate': True, 'sql': []}
+    retype = cf('a', 'CharField', None, ('max_length', '20'), ('null', 'true'))
+    family = [[retype, barrier, cf('a', None, '"x"', ('null', 'false'))],
+              [retype, barrier, cf('a', None, None, ('db_index', 'true'))],
+              [retype, barrier, cf('a', None, None, ('max_length', '30'))],
+              [cf('b', None, None, ('null', 'true')), retype, barrier, cf('a', None, '"x"', ('null', 'false'))]]
+    seqs = family + seqs
     copies = bool(ctx.variant.get('optimizer_copies'))
     reqs = [{'op': 'optimize', 'existing': existing, 'copies': copies,
              'mutations': [sigs.model_mutation(m) for m in s]} for s in seqs]
@@ -328,11 +371,12 @@ def run(ctx):
     acting = [i for i in idx if rewritten_of.get(i)]
     plain = [i for i in idx if not rewritten_of.get(i) and len(seqs[i]) >= 2]
     n_db = 70 if quick else 1500
-    chosen = acting[:n_db // 2] + plain[:n_db - n_db // 2]
+    chosen = list(range(len(family))) + acting[:n_db // 2] + plain[:n_db - n_db // 2]
     for i in chosen:
         if ctx.time_left() < 25:
             break
-        db_case(ctx, spec, seqs[i], ctx.seed * 7919 + i, witnesses, rewritten_of.get(i, False))
+        db_case(ctx, spec, seqs[i], ctx.seed * 7919 + i, witnesses, rewritten_of.get(i, False),
+                explained=EXPLAINED.get(json.dumps([sigs.model_mutation(m) for m in seqs[i]], sort_keys=True), True))
     # ---- Lean counterexample witnesses replayed on the real code ------------------------------
     w = [{'t': 'AddField', 'model': 'Alpha', 'field': 'c', 'ftype': 'IntegerField', 'initial': '1', 'attrs': []},
          {'t': 'RenameField', 'model': 'Alpha', 'old': 'c', 'new': 'd', 'db_column': None, 'db_table': None}]
@@ -352,6 +396,7 @@ WHAT = {
     F_REGROUP: 'regrouping by sorted model name moves a mutation across the RenameModel that creates/removes its model name',
     F_INDEX: 'a db_index/unique change or field rename merged with other changes of the same table leaves different indexes',
     F_INITIAL: 'rolling up mutations that carry initial values changes or drops the data rewrite of the intermediate step',
+    F_RETYPE: 'a type-changing ChangeField merged with earlier changes of the same field keeps attributes that it drops when applied on its own',
     F_REBUILD: 'a table rebuild after ChangeMeta drops the multi-column index in one of the two runs (rebuild loses table-level indexes)',
 }
 
